@@ -1039,6 +1039,29 @@ impl Engine for SchedEngine {
                     }
                 }
             }
+            "window" => {
+                // engine-only scenario on a private Sender (interleave window of a FEC object): see probe.rs
+                let mut o2 = Oracle::default();
+                let r = guarded(AssertUnwindSafe(|| crate::probe::window(t, &mut o2)));
+                o.fails.append(&mut o2.fails);
+                if let Err(loc) = r {
+                    o.fail("C13:interleave-panic", &format!("sender panics at {} with a multi-block FEC object", loc));
+                }
+                "ok".into()
+            }
+            "pace" => {
+                // engine-only scenario on a private Sender (paced FEC / content-encoded object): see probe.rs
+                let mut o2 = Oracle::default();
+                let r = guarded(AssertUnwindSafe(|| crate::probe::pace(t, &mut o2)));
+                o.fails.append(&mut o2.fails);
+                match r {
+                    Ok(x) => x,
+                    Err(loc) => {
+                        o.fail("C14:degenerate-panic", &format!("sender panics at {} with a paced FEC / content-encoded object", loc));
+                        "ok".into()
+                    }
+                }
+            }
             "new" => self.exec_new(t),
             "add" => {
                 let r = self.exec_add(t);
